@@ -26,7 +26,7 @@ def queries(tier):
         Query(name="lem_normalize", harness="C25/ec.c", entry="lem_normalize", unwind=20, funcs=[FW[1], FW[2], FW[4]],
               bound="arbitrary writer state in its invariant; byte offsets 0..4 and 65530..65540 (one step)", what="a writer step keeps the writer invariant, never lowers the bit count, stores the byte offset exactly", timeout=900),
     ]
-    for n in ([2] if not th else [2, 3]):   # n=4 did not finish in 900 s; larger alphabets not attempted
+    for n in [2]:   # n=3 did not finish in 3000 s, n=4 not in 900 s; larger alphabets not attempted
         qs.append(Query(name="lem_range_lockstep_n%d" % n, harness="C25/ec.c", entry="lem_range_lockstep", defines=["NFIX=%d" % n], unwind=20,
                         funcs=[FW[0], FW[2], FR[0], FR[3]], bound="arbitrary range 32768..65535, arbitrary window, alphabet %d (one step)" % n,
                         what="encoder and decoder range registers agree after any symbol", timeout=900 if not th else 3000))
